@@ -912,12 +912,53 @@ pub mod simstd {
             })
         }
 
-        impl Write for Stdout {
+        /// The file descriptor under std's line buffer.
+        pub struct RawStdout;
+        impl Write for RawStdout {
             fn write(&mut self, buf: &[u8]) -> Result<usize> {
                 stdout_write(buf)
             }
             fn flush(&mut self) -> Result<()> {
                 Ok(())
+            }
+        }
+
+        /// Like the real thing, standard output sits behind std's own `LineWriter` with a
+        /// 1024-byte buffer (the genuine std implementation, not a model of it): it is flushed
+        /// when the process exits normally, through `process::exit` or after a panic, and lost
+        /// when the process crashes.
+        static STDOUT_LW: ::std::sync::Mutex<Option<LineWriter<RawStdout>>> = ::std::sync::Mutex::new(None);
+
+        fn with_lw<R>(f: impl FnOnce(&mut LineWriter<RawStdout>) -> R) -> R {
+            let mut g = STDOUT_LW.lock().unwrap_or_else(|e| e.into_inner());
+            f(g.get_or_insert_with(|| LineWriter::with_capacity(1024, RawStdout)))
+        }
+
+        /// New process: empty line buffer (whatever an earlier, crashed process left is gone).
+        pub fn reset_stdout() {
+            let mut g = STDOUT_LW.lock().unwrap_or_else(|e| e.into_inner());
+            if let Some(old) = g.take() {
+                ::std::mem::forget(old); // never flush a dead process's buffer
+            }
+        }
+
+        /// Process exit: `flush = true` for a normal exit / `process::exit` / panic, `false` for a crash.
+        pub fn finish_stdout(flush: bool) {
+            let taken = STDOUT_LW.lock().unwrap_or_else(|e| e.into_inner()).take();
+            if let Some(mut lw) = taken {
+                if flush {
+                    let _ = lw.flush();
+                }
+                ::std::mem::forget(lw); // its Drop would flush again
+            }
+        }
+
+        impl Write for Stdout {
+            fn write(&mut self, buf: &[u8]) -> Result<usize> {
+                with_lw(|lw| lw.write(buf))
+            }
+            fn flush(&mut self) -> Result<()> {
+                with_lw(|lw| lw.flush())
             }
         }
         impl Stdout {
@@ -1140,6 +1181,7 @@ pub fn execute(fs: &mut Fs, ex: &Exec, entry: fn()) -> Outcome {
         ..Default::default()
     };
     *WORLD.lock().unwrap_or_else(|e| e.into_inner()) = Some(world);
+    simstd::io::reset_stdout();
     clock_install(&ex.clock);
 
     let (tx, rx) = std::sync::mpsc::channel::<ExecMsg>();
@@ -1165,6 +1207,9 @@ pub fn execute(fs: &mut Fs, ex: &Exec, entry: fn()) -> Outcome {
         ExecMsg::Halted(h) => (Err(h), None),
     };
 
+    // what is still in the line buffer reaches the descriptor unless the process crashed
+    let crashed = matches!(res, Err(Halt::Crash(_))) || with_world(|w| w.plan.crash == Some(CrashAt::AtExit));
+    simstd::io::finish_stdout(!crashed);
     let clock = clock_uninstall();
     let mut world = WORLD.lock().unwrap_or_else(|e| e.into_inner()).take().expect("world vanished");
     let mut status = match res {
